@@ -54,7 +54,7 @@ PROPS = {
     note=E1_NOTE,
     technique=E1_TECH,
     e1=[dict(tu="c04_select.cpp"), dict(tu="c03b_dynamic.cpp"), dict(tu="c04b_concat.cpp")],
-    e2=[dict(rule="R-PAIR")],
+    e2=[dict(rule="R-PAIR"), dict(rule="R-AXISNORM")],
     rule=E1_RULE,
     explanation="src = dst mod shape (tile), src_axis = dst_axis / r (repeat), src_axis = (dst_axis - shift) mod extent (roll), written from the NumPy definitions.",
     not_decided="take, compress, concatenate/stack family, split, sliding_window, diagonal, tril/triu, where, generators, pad, resize, expand, per-element repeats, repeat/roll without axis",
@@ -216,7 +216,7 @@ PROPS["C08"] = dict(
     note=E1_NOTE + " " + E2_NOTE + " Assumes that a (start, stop) slice selects the elements start..stop-1 in order (C05, not decided) and that flatten keeps C order (proved under C03).",
     technique=E1_TECH + " + structural fold-order rule over the reduction views (custom libTooling extractor)",
     e1=[dict(tu="c08_reduce.cpp")],
-    e2=[dict(rule="R-FOLD")],
+    e2=[dict(rule="R-FOLD"), dict(rule="R-AXISNORM")],
     rule=E1_RULE + "; E2: one instance per reducer / reduce / accumulate call operator and per sum/prod/cumsum/cumprod overload",
     explanation="Which elements enter a fold is an index-level fact (the slices), decided for all values; the order and accumulator position are structural facts of the fold loop.",
     not_decided="several reduction axes at once, axis=None path beyond 'flatten the whole array', dtype/initial value arithmetic, mean/var/stddev/vector_norm/trace, the slicing view (C05)",
